@@ -224,6 +224,7 @@ def run(ctx):
     worst = 0.0
     min_int = 1.0
     n_struct = 0
+    evaluated = []
     for si, skey in enumerate(sorted(structs)):
         act = [k for k, _ in skey]
         Js = dict(skey)
@@ -325,6 +326,11 @@ def run(ctx):
                 cfg.set_params(par)
 
             mine = [s for j, s in enumerate(scns) if j % ngrid == gi or j == 0]
+            if quick and len(act) == 3:
+                # budget: half fraction of the 2^3 coupling assignments (even number of non-default triples:
+                # every chain sees both lattice points, every pair of chains all four combinations)
+                mine = [s for s in mine if sum(1 for c in s if c[2] != [[1, 0], [1, 0], [1, 0]]) % 2 == 0]
+            evaluated.extend((skey, tuple(tuple(map(tuple, c[2])) for c in s)) for s in mine)
             for scn in mine:
                 set_couplings(scn, True)
                 compare(scn, "polar")
@@ -340,10 +346,10 @@ def run(ctx):
                 ctx.sample({"structure": stag, "grid": gtag, "couplings(total,g_ls,g_ls)": {CHAINS[c[0]][0]: c[2] for c in scn},
                             "c_k(TLC)": {CHAINS[c[0]][0]: c[3] for c in scn}, "sign(-1)^J(TLC)": {CHAINS[c[0]][0]: c[4] for c in scn},
                             "events": len(idx)})
-        for scn in scns:
-            ctx.count(0, distinct_key=(skey, tuple(tuple(map(tuple, c[2])) for c in scn)), nontrivial=True)
+    for kk in evaluated:
+        ctx.count(0, distinct_key=kk, nontrivial=True)
     ctx.count(n_eval)
-    ctx.part("density", structures=n_struct, models_built=n_models, scenarios=len(out["scenarios"]), evaluations=n_eval,
+    ctx.part("density", structures=n_struct, models_built=n_models, scenarios=len(out["scenarios"]), scenarios_evaluated=len(set(evaluated)), evaluations=n_eval,
              cartesian_evaluations=n_cart, events_per_model=nev, grids_per_structure=ngrid,
              max_rel_err=worst, strongest_destructive_interference=min_int)
     if n_models < n_struct:
@@ -352,7 +358,8 @@ def run(ctx):
     ctx.cov["rule"] = (
         "discrete part exhaustive: every scenario of ClosedForm.tla is one TLC state (non-empty subsets of the 3 chains x J in 0..4 per chain "
         "x %d coupling triples per chain = %d scenarios, %d model structures); each structure is built through ConfigLoader(dict) on %d "
-        "mass/width grid point(s) and every scenario is evaluated on %d seeded interior events in polar coordinates, every %d-th also in "
+        "mass/width grid point(s) and every scenario (quick tier: for three-chain structures the half fraction of the coupling assignments with an "
+        "even number of non-default triples) is evaluated on %d seeded interior events in polar coordinates, every %d-th also in "
         "cartesian coordinates; reference from the TLC tables (P_J, B_J coefficients, (-1)^J, c_k); |got-ref| <= 1e-8 ref + 1e-11 (sum_k|A_k|)^2. "
         "continuous part (events, masses, widths) sampled. distinct = distinct (structure, coupling assignment)"
         % (ncpl, out["nscn"], n_struct, ngrid, nev, cart_every)
